@@ -18,7 +18,7 @@ from ..core import Result
 ID = 'C13'
 LEVEL = 'exploration'
 RULE = (
-    'atoms Li,S,Li,S,P; per-atom step pattern from a table of K patterns (steps in {-0.2,0,0.15} on varying axes), '
+    'atoms Li,S,Li,S,P and Si,S,Si,S,P (floating symbol contains a reference symbol); per-atom step pattern from a table of K patterns (steps in {-0.2,0,0.15} on varying axes), '
     'all K^5 assignments; rigid drift signals from a table (steps in {-0.2,0,0.15} on every axis); selection forms '
     '{none, fixed "S", ["S"], ["S","P"], floating "Li", ["Li"], floating ["Li","P"]}; species as Species/Element; '
     'LATTICES; frames 4 (quick) / 4-5 (thorough); distinct = distinct corrected displacement arrays'
@@ -34,6 +34,8 @@ TECHNIQUE = 'bounded-exhaustive input-shape enumeration with definitional and me
 ASSUMPTIONS = ['all per-frame steps incl. injected drift stay below half a cell']
 
 SYMS = ['Li', 'S', 'Li', 'S', 'P']
+# second layout: the floating symbol 'Si' CONTAINS the symbol of a reference species ('S')
+LAYOUTS = {'Li': ['Li', 'S', 'Li', 'S', 'P'], 'Si': ['Si', 'S', 'Si', 'S', 'P']}
 PATTERNS = [
     [(0, 0.15), (1, -0.2), (2, 0.0), (0, 0.15)],
     [(1, 0.0), (1, 0.15), (0, -0.2), (2, -0.2)],
@@ -46,15 +48,20 @@ DRIFTS = [
     [(-0.2, -0.2, -0.2), (0.0, 0.15, 0.0), (0.15, -0.2, 0.15), (0.15, 0.15, 0.15)],
     [(0.0, 0.0, 0.15), (0.0, 0.0, 0.15), (0.0, 0.0, 0.15), (0.0, 0.0, 0.15)],
 ]
-FORMS = [
-    ('none', {}, [0, 1, 2, 3, 4]),
-    ('fixed-S', {'fixed_species': 'S'}, [1, 3]),
-    ('fixed-[S]', {'fixed_species': ['S']}, [1, 3]),
-    ('fixed-[S,P]', {'fixed_species': ['S', 'P']}, [1, 3, 4]),
-    ('floating-Li', {'floating_species': 'Li'}, [1, 3, 4]),
-    ('floating-[Li]', {'floating_species': ['Li']}, [1, 3, 4]),
-    ('floating-[Li,P]', {'floating_species': ['Li', 'P']}, [1, 3]),
-]
+def forms(fl):
+    return [
+        ('none', {}, [0, 1, 2, 3, 4]),
+        ('fixed-S', {'fixed_species': 'S'}, [1, 3]),
+        ('fixed-[S]', {'fixed_species': ['S']}, [1, 3]),
+        ('fixed-[S,P]', {'fixed_species': ['S', 'P']}, [1, 3, 4]),
+        ('fixed-P', {'fixed_species': 'P'}, [4]),
+        ('floating-str', {'floating_species': fl}, [1, 3, 4]),
+        ('floating-[list]', {'floating_species': [fl]}, [1, 3, 4]),
+        ('floating-[list,P]', {'floating_species': [fl, 'P']}, [1, 3]),
+    ]
+
+
+FORMS = forms('Li')
 
 
 def shards(tier, seed):
@@ -67,7 +74,9 @@ def shards(tier, seed):
         for cls in ('Species', 'Element'):
             for p0 in range(K):
                 for T in ([4] if tier == 'quick' else [4, 5]):
-                    out.append({'lat': lname, 'M': M.tolist(), 'cls': cls, 'K': K, 'p0': p0, 'T': T, 'nd': 3 if tier == 'quick' else 4})
+                    out.append({'lat': lname, 'M': M.tolist(), 'cls': cls, 'K': K, 'p0': p0, 'T': T, 'nd': 3 if tier == 'quick' else 4, 'layout': 'Li' if (p0 + T) % 2 == 0 or tier == 'thorough' else 'Si'})
+                    if tier == 'thorough':
+                        out.append(dict(out[-1], layout='Si'))
     return out
 
 
@@ -89,8 +98,10 @@ def circ(a, b, tol=1e-12):
     return np.all(np.abs(r - np.round(r)) < tol)
 
 
-def evaluate(assign, drift_idx, T, M, cls):
+def evaluate(assign, drift_idx, T, M, cls, layout='Li'):
     viols = []
+    SYMS = LAYOUTS[layout]
+    FORMS = forms(layout)
     M = np.asarray(M)
     x, xd = build(assign, drift_idx, T, M, cls)
     wrap = lambda c: np.mod(c, 1)  # noqa: E731
@@ -135,7 +146,7 @@ def evaluate(assign, drift_idx, T, M, cls):
     # floating X == fixed (all other symbols)
     try:
         t0 = concretise.make_trajectory(wrap(xd), SYMS, M, time_step=2e-15, species_cls=cls)
-        a = np.array(t0.drift(floating_species='Li'))
+        a = np.array(t0.drift(floating_species=layout))
         b = np.array(concretise.make_trajectory(wrap(xd), SYMS, M, time_step=2e-15, species_cls=cls).drift(fixed_species=['S', 'P']))
         if a.shape != b.shape or not np.allclose(a, b, atol=1e-12, equal_nan=False):
             viols.append(('floating-not-equivalent-to-complementary-fixed', f'{a.reshape(-1, 3).tolist()} vs {b.reshape(-1, 3).tolist()}'))
@@ -153,15 +164,15 @@ def run_shard(shard) -> Result:
     for rest in itertools.product(range(K), repeat=4):
         assign = (shard['p0'],) + rest
         for di in range(shard['nd']):
-            viols, key = evaluate(assign, di, shard['T'], M, shard['cls'])
+            viols, key = evaluate(assign, di, shard['T'], M, shard['cls'], shard.get('layout', 'Li'))
             res.evals += 1
             res.outcome(hash(key))
             for kind, detail in viols:
-                res.violation(kind, {'assign': list(assign), 'drift': di, 'T': shard['T'], 'M': M.tolist(), 'cls': shard['cls']}, detail)
-    res.sample({'track_assignment': list(assign), 'drift_signal': DRIFTS[di], 'species_as': shard['cls'], 'lattice': shard['lat'], 'forms': [f[0] for f in FORMS]})
+                res.violation(kind, {'assign': list(assign), 'drift': di, 'T': shard['T'], 'M': M.tolist(), 'cls': shard['cls'], 'layout': shard.get('layout', 'Li')}, detail)
+    res.sample({'track_assignment': list(assign), 'drift_signal': DRIFTS[di], 'species_as': shard['cls'], 'lattice': shard['lat'], 'forms': [f[0] for f in FORMS], 'species_layout': LAYOUTS[shard.get('layout', 'Li')]})
     return res
 
 
 def replay(case):
-    viols, _ = evaluate(tuple(case['assign']), case['drift'], case['T'], np.array(case['M']), case['cls'])
+    viols, _ = evaluate(tuple(case['assign']), case['drift'], case['T'], np.array(case['M']), case['cls'], case.get('layout', 'Li'))
     return [{'kind': k, 'detail': d} for k, d in viols]
